@@ -72,8 +72,8 @@ def mimic_function[**Args, Result](
             target,
         )
 
-    if target := within:
-        return mimic(target)
+    if within is not None:
+        return mimic(within)
 
     else:
         return mimic
